@@ -23,9 +23,13 @@ class _Sock:
     def close(self): self.closed = True
 
     def sendall(self, data):
+        if self.w.get("sendfail"):
+            raise ConnectionResetError("peer reset")
         self.w["sent"] += bytes(data)
 
     def send(self, data):
+        if self.w.get("sendfail"):
+            raise ConnectionResetError("peer reset")
         self.w["sent"] += bytes(data)
         return len(data)
 
@@ -51,7 +55,7 @@ def _shims(world):
     class Sel:
         @staticmethod
         def select(r, w, x, timeout=None):
-            return (list(r) if world["inbuf"] else []), list(w), []
+            return (list(r) if (world["inbuf"] or world.get("eof")) else []), list(w), []
 
     class Tm:
         t = 50.0
@@ -157,6 +161,59 @@ def check_entry_points() -> Dict[str, Any]:
             for b in bad:
                 failures.append({"entry": entry, "options": dict(logger=logger, daemon=daemon, allow_multiple=allow, name=name, id=mid, timecode=timecode),
                                  "frames": frames[:3], "what": b})
+        # --- the same options through a *second* connect of the same Client object, however the first session ended
+        for how, mid, allow, logger, timecode in itertools.product(
+                ("disconnect", "eof_on_read", "reset_on_send", "still_connected"), (0, 12), (False, True), (False, True), (False, True)):
+            world = {"sent": b"", "inbuf": _ack_bytes(timecode, mid or 117) * 2}
+            CL.socket, CL.select, CL.time = _shims(world)
+            n += 1
+            opts = dict(reconnect_after=how, logger=logger, allow_multiple=allow, name="rc", id=mid, timecode=timecode)
+            try:
+                c = CL.Client(module_id=mid, timecode=timecode, name="rc")
+                try:
+                    c.logger.enable_console = False
+                except Exception:
+                    pass
+                c.connect("h:1", logger, False, allow)
+                first_id = c.module_id
+                if how == "disconnect":
+                    c.disconnect()
+                elif how == "eof_on_read":
+                    world["eof"] = True
+                    try:
+                        c.read_message(timeout=0.05)
+                    except Exception:  # noqa: BLE001  ConnectionLost is what we want to provoke
+                        pass
+                    world["eof"] = False
+                elif how == "reset_on_send":
+                    world["sendfail"] = True
+                    try:
+                        c.send_signal(cd.MT_EXIT) if hasattr(cd, "MT_EXIT") else c.subscribe([cd.MT_ACKNOWLEDGE])
+                    except Exception:  # noqa: BLE001
+                        pass
+                    world["sendfail"] = False
+                world["sent"] = b""
+                world["inbuf"] = _ack_bytes(timecode, mid or 118) * 2
+                c.connect("h:1", logger, False, allow)
+                got_id = c.module_id
+            except Exception as e:  # noqa: BLE001
+                failures.append({"entry": "reconnect", "options": opts, "what": f"raised {type(e).__name__}: {e}"})
+                continue
+            frames = _decode(world["sent"], timecode)
+            v2 = [f for f in frames if f["type"] == cd.MT_CONNECT_V2]
+            bad = []
+            if len(v2) != 1:
+                bad.append(f"second handshake has {len(v2)} CONNECT_V2 frames")
+            else:
+                want = dict(logger=int(logger), allow_multiple=int(allow), mod_id=mid, name="rc")
+                for k, v in want.items():
+                    if v2[0].get(k) != v:
+                        bad.append(f"second connect (first session ended by {how}, it had id {first_id}): CONNECT_V2.{k} = "
+                                   f"{v2[0].get(k)!r}, the client was created / called with {v!r}")
+                if got_id != (mid or 118):
+                    bad.append(f"after the second connect the client reports module id {got_id}, the acknowledgement assigned {mid or 118}")
+            for b in bad:
+                failures.append({"entry": "reconnect", "options": opts, "frames": frames[:3], "what": b})
     finally:
         CL.socket, CL.select, CL.time = saved
     return {"cases": n, "failures": failures}
